@@ -32,11 +32,15 @@ ASSUMPTIONS = ['bounded pre-emption: an interference needing three or more preci
 
 STUCK_S = 30
 FORCE_S = 3        # no scheduling point for this long while other threads are parked: hand the token on
-BLOCKED_S = 25     # the only thread left makes no progress for this long: blocked for good
+BLOCKED_S = 15     # the only thread left makes no progress for this long: blocked for good
 
 
 class Stuck(Exception):
     pass
+
+
+class Poisoned(Exception):
+    """A thread is blocked for good inside the engine: the process cannot be used for further schedules."""
 
 
 class Scheduler:
@@ -163,23 +167,28 @@ def run_schedule(jobs, segments=None, rng=None, p_switch=0.0, line_points=False)
         # scheduling points, one of them may be the holder of that lock: it gets the token (a forced switch). If every other
         # thread has finished and the one left makes no progress for BLOCKED_S, it is blocked for good.
         last = (-1, -1)
-        since = time.monotonic()
+        since = since_force = time.monotonic()
+        forced_round = 0
         while any(t.is_alive() for t in threads):
             for t in threads:
                 t.join(0.05)
             now = (sched.steps, sum(sched.done))
             if now != last:
-                last, since = now, time.monotonic()
+                last, since, forced_round = now, time.monotonic(), 0
+                since_force = since
                 continue
             idle = time.monotonic() - since
-            parked = [i for i in range(n) if not sched.done[i] and i != sched.current]
-            if idle > FORCE_S and parked:
-                nxt = parked[0]
+            others = [i for i in range(n) if not sched.done[i] and i != sched.current]
+            if idle <= BLOCKED_S and others and time.monotonic() - since_force > FORCE_S and forced_round < len(others) + 1:
+                # hand the token to each of the other threads once: one of them may hold what the current one waits for
+                nxt = others[forced_round % len(others)]
+                forced_round += 1
                 sched.forced.append((sched.steps, sched.current, nxt))
                 sched.current = nxt
                 sched.sems[nxt].release()
-                since = time.monotonic()
-            elif idle > BLOCKED_S and not parked:
+                since_force = time.monotonic()
+            elif idle > BLOCKED_S:
+                # nobody has passed a scheduling point or finished for BLOCKED_S although every thread has had the token
                 blocked = [i for i in range(n) if not sched.done[i]]
                 frames = sys._current_frames()
                 import traceback
@@ -351,9 +360,9 @@ def check_schedule(ctx, jobs, serial, segments, rng, p_switch, label, case, line
     ctx.count('obs.forced_switches', len(sched.forced))
     if sched.blocked:
         i = next(k for k, r in enumerate(results) if r and r[0] == 'blocked')
-        ctx.violation('c20.thread_blocked_forever', f'{label}: every other thread has finished and thread {i} made no progress for {BLOCKED_S} s '
+        ctx.violation('c20.thread_blocked_forever', f'{label}: thread {i} (and every other unfinished thread, each given the token in turn) made no progress for {BLOCKED_S} s '
                       f'(serially it returns at once); it is waiting in:\n{results[i][1]}', dict(case, schedule={'segments': segments, 'switches': sched.switches[:40]}))
-        return sched
+        raise Poisoned(label)
     if sched.stuck or any(r == ('stuck',) for r in results):
         ctx.count('inconclusive.scheduler_stuck')
         ctx.notes.append(f'scheduler stuck on {label}')
@@ -532,6 +541,13 @@ def triple(ctx, n):
 
 
 def run(ctx):
+    try:
+        _run(ctx)
+    except Poisoned as exc:
+        ctx.notes.append(f'exploration stopped after a thread blocked for good ({exc})')
+
+
+def _run(ctx):
     monitors.install()
     engine.bq()
     import beanquery
